@@ -65,9 +65,30 @@ impl Distance<Vec<f64>, f64> for VerifNearTable {
     }
 }
 
+// Two stubs keep the heap model of the radius search inside what CBMC can decide.  LinearKNNSearch::find_radius starts from
+// `Vec::new()` and pushes under a symbolic condition, so the length of the answer is symbolic and CBMC cannot refute
+// `len == capacity` by constant propagation: it follows the grow path, which reallocates the buffer with a SYMBOLIC size, and the
+// byte-level model of such an object costs 28 M clauses for n = 3 (> 20 GB without the first stub, 4 min with it).
+//   * Vec::new is replaced by `Vec::with_capacity(MAXN)` (capacity is not observable by safe code);
+//   * alloc::alloc::realloc_nonnull (what RawVec's grow path ends in) is replaced by a function that ASSERTS it is never reached:
+//     "no heap buffer is reallocated" is a checked obligation of every harness, not an assumption -- code that outgrows a
+//     preallocated buffer fails the harness instead of being cut off silently.
+// Measured effect for n = 3: 1.0 M clauses, 15 s.
+fn verif_vec_new_prealloc<T>() -> Vec<T> {
+    Vec::with_capacity(MAXN)
+}
+
+unsafe fn verif_no_realloc(ptr: std::ptr::NonNull<u8>, _layout: std::alloc::Layout, _new_size: usize) -> *mut u8 {
+    assert!(false, "harness bound: no heap buffer is reallocated (a Vec outgrew its preallocated capacity)");
+    kani::assume(false);
+    ptr.as_ptr()
+}
+
 macro_rules! dbscan_predict_harness {
     ($name:ident, $n:expr, $c:expr, $unw:expr) => {
         #[kani::proof]
+        #[kani::stub(std::vec::Vec::new, verif_vec_new_prealloc)]
+        #[kani::stub(alloc::alloc::realloc_nonnull, verif_no_realloc)]
         #[kani::unwind($unw)]
         fn $name() {
             const N: usize = $n;
